@@ -92,6 +92,8 @@ class Opts:
         self.anon_root = True
         self.name_pool = None         # override of the hostile name alphabet
         self.type_suffix = "Type"
+        self.global_names = False     # element names are unique across the whole schema
+        self.builtins = None          # override of the builtin simple types
         self.__dict__.update(kw)
 
 
@@ -109,10 +111,14 @@ class _B:
         self.choice_ctx = 0
         self.plain = False
         self.uniform_forms = False
+        self.global_used = set()
+        self.used_types = set()
         self.nillable_in_choice = 0
 
     def fresh(self, pool, used):
         d = self.d
+        if self.o.global_names and used is not self.used_types:
+            used = self.global_used          # one element name, one declaration (regular documents for C13)
         for _ in range(20):
             nm = d(st.sampled_from(pool))
             key = nm.lower() if not self.o.hostile else nm
@@ -163,7 +169,7 @@ class _B:
                 self.types[nm] = stp
                 return {"t": nm}
             return {"anon": stp}
-        return {"b": d(st.sampled_from(BUILTINS))}
+        return {"b": d(st.sampled_from(self.o.builtins or BUILTINS))}
 
     def attrs(self):
         d = self.d
@@ -287,7 +293,7 @@ class _B:
     def simple_element(self, used):
         d = self.d
         return {"k": "element", "name": self.fresh(self.names(), used), "min": d(st.sampled_from([1, 0])), "max": d(st.sampled_from([1, 1, 2])),
-                "nillable": False, "form": None, "type": {"b": d(st.sampled_from(BUILTINS))}}
+                "nillable": False, "form": None, "type": {"b": d(st.sampled_from(self.o.builtins or BUILTINS))}}
 
     def complex_type(self, depth):
         d, o = self.d, self.o
@@ -420,7 +426,7 @@ def schema_specs(draw, opts=None):
     root_ct = b.finish(root_ct)
     if not anon_root:
         b.types[root_type_name] = root_ct
-    root_name = draw(st.sampled_from(b.names()))
+    root_name = b.fresh(b.names(), b.global_used) if o.global_names else draw(st.sampled_from(b.names()))
     b.elements[root_name] = {"k": "element", "name": root_name, "type": {"anon": root_ct} if anon_root else {"t": root_type_name},
                              "min": 1, "max": 1, "nillable": False, "form": None}
     spec.update(types=b.types, elements=b.elements, root=root_name, flags=b.flags)
